@@ -950,8 +950,12 @@ Definition shutdown_sockets (s1 : screen) : screen :=
        | _ :: _ =>
          set_pending [] (dead_conn (set_fds (remove_fd (fd_of (length (s_conns s1))) (s_allfds s1)) (s_maxfd s1) s1))
        end.
+(* since commit 633e5d0 rfbShutdownServer stops accepting FIRST (rfbHttpShutdownSockets, rfbShutdownSockets)
+   and only then closes and tears down the clients: when rfbCloseClient recomputes maxFd the listening
+   descriptor is already out of allFds *)
 Definition shutdown_server (s : screen) : screen :=
-  shutdown_sockets (fold_left shutdown_one (s_order s) s).
+  let s1 := shutdown_sockets s in
+  fold_left shutdown_one (s_order s1) s1.
 
 (* rfbScreenCleanup: same iterator *)
 Definition cleanup_one (s : screen) (k : nat) : screen :=
